@@ -436,7 +436,13 @@ func c17Body(rc *RunCtx) {
 		nSteps := 1 + simrt.Choose(3)
 		tk := simrt.GoNamed("clock", func() {
 			for i := 0; i < nSteps; i++ {
-				simrt.Sleep(time.Duration(simrt.Choose(15000)) * time.Millisecond)
+				if i == 0 && simrt.ChanceF(1, 4) {
+					// a step right at start-up: between the logger's construction and the first
+					// run of its background goroutine
+					simrt.Sleep(time.Duration(simrt.ChooseF(3)) * time.Millisecond)
+				} else {
+					simrt.Sleep(time.Duration(simrt.Choose(15000)) * time.Millisecond)
+				}
 				var j time.Duration
 				switch simrt.ChooseF(6) {
 				case 0:
